@@ -57,7 +57,7 @@ LEVEL_NOTE = "Trusted: lexical owner attribution of spawn sites (innermost enclo
 
 SCRIPTS = ("now", "gate", "fail", "gate-fail", "forever", "spawn-now", "spawn-gate", "gate-spawn-gate", "forever-spawn-on-cancel")
 SITES = ("plain", "sscope", "updated")
-BODIES = ("return", "raise-exc", "cancel-self", "raise-base")
+BODIES = ("return", "raise-exc", "cancel-self", "raise-base", "raise-genexit")
 DFS_CAP = {"quick": 60, "thorough": 400}
 SAMPLE = {"quick": 500, "thorough": 40_000}
 
@@ -196,7 +196,7 @@ def judge(R: Recorder, case: dict[str, Any], chooser: Chooser, W: World, status:
     def scripted(e: BaseException) -> bool:
         if isinstance(e, BaseExceptionGroup):
             return all(scripted(x) for x in e.exceptions)
-        return isinstance(e, (BodyExc, BodyBase, asyncio.CancelledError, DispErr, DispBase))
+        return isinstance(e, (BodyExc, BodyBase, asyncio.CancelledError, DispErr, DispBase)) or (type(e) is GeneratorExit and case["body"] == "raise-genexit")
 
     odd = {b: e for b, e in W.caught.items() if e is not None and not scripted(e)}
     R.monitor("no-unexpected-error", not odd, where={**w0, "kind": "unexpected-error", "error": next(iter(type(e).__name__ for e in odd.values()), None)},
